@@ -28,15 +28,18 @@ def repo_copy():
 RES_RE = re.compile(r'^VERIFICATION:- (SUCCESSFUL|FAILED)', re.M)
 
 
-def run_kani(harness_text, harnesses, features='all_msgs', jobs=16, timeout=3600, extra=(), tag='h', unwind=None):
+def run_kani(harness_text, harnesses, features='all_msgs', jobs=16, timeout=3600, extra=(), tag='h', unwind=None, cfgs=()):
     """Returns dict harness -> {status: ok|failed|tool, detail, time_s}."""
     rc = repo_copy()
     hpath = os.path.join(common.scratch(), 'harness_%s.rs' % tag)
     with open(hpath, 'w') as f:
         f.write(harness_text)
-    env = common.offline_env({'RTCM_VERIF_HARNESS': hpath})
+    envx = {'RTCM_VERIF_HARNESS': hpath}
+    if cfgs:
+        envx['RUSTFLAGS'] = ' '.join('--cfg %s' % c for c in cfgs)      # extra guards (the in-place contracts are behind cfg(all(kani, rtcm_rs_verif_contracts)))
+    env = common.offline_env(envx)
     cmd = ['cargo', 'kani', '--no-default-features', '--features', features, '-Z', 'function-contracts', '-Z', 'stubbing',
-           '--output-format', 'terse', '-j', str(jobs), '--target-dir', os.path.join(common.scratch(), 'kani-target')]
+           '--output-format', 'terse', '-j', str(jobs), '--target-dir', os.path.join(common.scratch(), 'kani-target' + ('-' + '-'.join(cfgs) if cfgs else ''))]
     for h in harnesses:
         cmd += ['--harness', h]
     cmd += list(extra)
